@@ -101,6 +101,16 @@ func c15Owner(o string, c ap.CollectionPath) (ds []keyed) {
 
 // c15Item checks the collection helper on objects and actors with and without explicit collection properties.
 func c15Item(kind string, id string, c ap.CollectionPath, explicit string) (ds []keyed, hasExplicit bool) {
+	label := kind
+	claimed, claims := "", false
+	if i := strings.Index(kind, "#"); i >= 0 {
+		claimed, claims = strings.TrimSuffix(kind[i+1:], "/val"), true
+		if strings.HasSuffix(kind, "/val") {
+			kind = kind[:i] + "/val"
+		} else {
+			kind = kind[:i]
+		}
+	}
 	var x ap.Item
 	fieldOf := map[ap.CollectionPath]string{ap.Inbox: "Inbox", ap.Outbox: "Outbox", ap.Followers: "Followers", ap.Following: "Following", ap.Liked: "Liked",
 		ap.Likes: "Likes", ap.Shares: "Shares", ap.Replies: "Replies"}
@@ -123,8 +133,12 @@ func c15Item(kind string, id string, c ap.CollectionPath, explicit string) (ds [
 		}
 		x = p.Interface().(ap.Item)
 	}
-	// "<kind>/val": the same owner handed over by value instead of by pointer
+	// "<kind>/val": the same owner handed over by value instead of by pointer; "<kind>#<Type>": the owner says it is a <Type>,
+	// whatever struct holds it (a Person in an Object struct is what a decoder produces for a sparse document)
 	byValue := strings.HasSuffix(kind, "/val")
+	if claims {
+		reflect.ValueOf(x).Elem().FieldByName("Type").SetString(claimed)
+	}
 	var want ap.Item
 	f := reflect.ValueOf(x).Elem().FieldByName(fieldOf[c])
 	if f.IsValid() && explicit != "" {
@@ -139,7 +153,7 @@ func c15Item(kind string, id string, c ap.CollectionPath, explicit string) (ds [
 		want = ex
 		hasExplicit = true
 	}
-	cls := kind + " " + string(c)
+	cls := label + " " + string(c)
 	if byValue {
 		x = reflect.ValueOf(x).Elem().Interface().(ap.Item)
 	}
@@ -172,9 +186,10 @@ func c15Item(kind string, id string, c ap.CollectionPath, explicit string) (ds [
 func TestC15(t *testing.T) {
 	r := ev.Open(t, "C15")
 	defer r.Close(t)
+	r.Assume("an Actor struct is given an actor type name (the helper looks the actor-side collections up by the type name; an Actor struct that calls itself a Note is not an actor)")
 	r.Rule("owners: scheme x host(+port) x 0..3 path segments from an alphabet with unreserved characters, percent-escapes, ~ and collection names, optional trailing slashes, no query/fragment, x all 8 collection names: " +
 		"Split(IRIf(o,c)) returns c and an owner equivalent (reference normaliser, scheme compared) to o; c.OfActor(c.IRI(o)) ≡ o; ValidCollectionIRI(IRIf(o,c)); !ValidCollectionIRI(o) when o's cleaned last " +
-		"segment is no collection name. items: an actor, an object and a value of each of the other 11 object types (collections holding two members) as the owner, by pointer and by value, x 8 names x {no explicit property, explicit IRI, explicit embedded collection}: explicit property wins, else ≡ IRIf(id,c). " +
+		"segment is no collection name. items: an actor, an object and a value of each of the other 11 object types (collections holding two members) as the owner, by pointer and by value, also with a type name from another family (a Person held in an Object struct), x 8 names x {no explicit property, explicit IRI, explicit embedded collection}: explicit property wins, else ≡ IRIf(id,c). " +
 		"non-trivial = owner has a trailing slash, port, escape or collection-named segment, or the item has an explicit property; distinct by (owner, name)")
 
 	segs := []string{"users", "~jdoe", "a.b", "%20x", "%41", "a%2Fb", "inbox", "Followers", "replies", "x_y-z", "ü"}
@@ -224,6 +239,7 @@ func TestC15(t *testing.T) {
 				kinds = append(kinds, st.Name())
 			}
 		}
+		kinds = append(kinds, "object#Person", "object#Service", "object#", "Place#Group", "Tombstone#Application")
 		for _, k := range append([]string{}, kinds...) {
 			kinds = append(kinds, k+"/val")
 		}
